@@ -15,13 +15,13 @@ use serde_json::json;
 pub const SPEC: PropSpec = PropSpec {
 	id: "C02",
 	level: "exploration",
-	rule: "cells of the matrix (schema node kind x serde Serializer entry point) are all visited (cell index = f(case seed), ~790 cells, tens of thousands of cases each), each with a boundary-biased payload (range edges, enum index n-1/n/n+1, fixed length +-1, decimal bytes with the high bit set, permuted/missing/unknown/duplicated record fields, twin union branches); a case is non-trivial when the serializer returned Ok or the reference demands Err; distinct by hash(schema, call tree)",
+	rule: "cells of the matrix (schema node kind x serde Serializer entry point) are all visited (cell index = f(case seed), ~790 cells, tens of thousands of cases each), each with a boundary-biased payload (range edges, enum index n-1/n/n+1, fixed length +-1, decimal bytes with the high bit set, permuted/missing/unknown/duplicated record fields, twin union branches, unions of 3-8 branches in random order where several branches accept the same Rust type with different suitability); every union cell is followed by an order probe: the same call against the same union with its branches permuted must give Err in both or select the same branch with the same value; a case is non-trivial when the serializer returned Ok or the reference demands Err; distinct by hash(schema, call tree)",
 	assumptions: &[
 		"reference decoder and the expectation table (engine/src/refavro/expect.rs) follow the Avro specification; outcomes the statement does not pin are classified Unspecified and only checked for decodability",
 	],
 	cases: (50_000_000, 4_000_000_000),
 	secs: (30, 600),
-	required: &["outcome:ok-exact", "outcome:err-as-required", "cells_hit"],
+	required: &["outcome:ok-exact", "outcome:err-as-required", "cells_hit", "union_order_probes", "union_order_probes_ok_selected"],
 	run_case,
 	once: None,
 	panics_are_violations: true,
@@ -39,6 +39,111 @@ pub const CALL_KINDS: &[&str] = &[
 	"some", "unit", "unit_struct", "unit_variant", "newtype_struct", "newtype_variant", "seq", "seq_nohint", "tuple",
 	"tuple_struct", "tuple_variant", "map", "map_nohint", "map_split", "struct", "struct_variant",
 ];
+
+/// A union of 3-8 branches in random order, drawn from types that may legally share a union (one per unnamed type,
+/// any number of named ones): several of them accept the same Rust type with different suitability
+/// (f64: double / float / decimals; integers: int / long / float / double / decimals; str: string / enum / decimals;
+/// bytes: bytes / fixed of that length / string), which is what type-directed selection has to rank.
+fn wide_union(rng: &mut Rng) -> Vec<Node> {
+	let mut pool: Vec<Node> = vec![
+		prim(Kind::Null),
+		prim(Kind::Boolean),
+		prim(Kind::Int),
+		prim(Kind::Long),
+		prim(Kind::Float),
+		prim(Kind::Double),
+		match rng.below(3) {
+			0 => prim(Kind::Bytes),
+			1 => lprim(Kind::Bytes, Logical::Decimal { precision: 12, scale: *rng.pick(&[0u32, 2]) }),
+			_ => lprim(Kind::Bytes, Logical::BigDecimal),
+		},
+		if rng.chance(3, 4) { prim(Kind::String) } else { lprim(Kind::String, Logical::Uuid) },
+		prim(Kind::Fixed { name: "F4".into(), size: 4 }),
+		lprim(Kind::Fixed { name: "ns.D8".into(), size: 8 }, Logical::Decimal { precision: 10, scale: *rng.pick(&[0u32, 1]) }),
+		lprim(Kind::Fixed { name: "ns.Dur".into(), size: 12 }, Logical::Duration),
+		prim(Kind::Enum { name: "E".into(), symbols: vec!["A".into(), "B".into(), "1".into()] }),
+	];
+	rng.shuffle(&mut pool);
+	let n = 3 + rng.below(6);
+	pool.truncate(n);
+	let mut nodes = vec![prim(Kind::Union((1..=pool.len()).collect()))];
+	nodes.extend(pool);
+	nodes
+}
+
+/// The same union with its branches in another order (returns the permutation: new position -> old position)
+fn permuted_union(rs: &RSchema, rng: &mut Rng) -> Option<(RSchema, Vec<usize>)> {
+	let bs = match &rs.node(0).kind {
+		Kind::Union(bs) if bs.len() >= 2 => bs.clone(),
+		_ => return None,
+	};
+	let mut perm: Vec<usize> = (0..bs.len()).collect();
+	match rng.below(3) {
+		0 => perm.reverse(),
+		1 => perm.rotate_left(1),
+		_ => rng.shuffle(&mut perm),
+	}
+	if perm.iter().enumerate().all(|(i, &p)| i == p) {
+		return None;
+	}
+	let mut rs2 = rs.clone();
+	rs2.nodes[0].kind = Kind::Union(perm.iter().map(|&p| bs[p]).collect());
+	Some((rs2, perm))
+}
+
+/// Which branch a call selects is a matter of the branches' types (and names), not of their positions: the same call
+/// against the same union with its branches reordered must have the same outcome - Err in both, or the same branch
+/// (followed through the permutation) with the same value.
+fn order_invariance(ctx: &mut Ctx, case_seed: u64, rs: &RSchema, call: &Call, allow_slow: bool, rng: &mut Rng) {
+	let (rs2, perm) = match permuted_union(rs, rng) {
+		Some(x) => x,
+		None => return,
+	};
+	let run = |r: &RSchema| -> Option<Result<Val, String>> {
+		let schema = r.to_schema_mut().freeze().ok()?;
+		let mut cfg = serde_avro_fast::ser::SerializerConfig::new(&schema);
+		if allow_slow {
+			cfg.allow_slow_sequence_to_bytes();
+		}
+		Some(match serde_avro_fast::to_datum_vec(call, &mut cfg) {
+			Err(e) => Err(e.to_string()),
+			Ok(b) => match decode_datum(r, &b) {
+				Ok((v, used)) if used == b.len() => Ok(v),
+				_ => return None, // undecodable output is judged by the cell check
+			},
+		})
+	};
+	let (a, b) = match (run(rs), run(&rs2)) {
+		(Some(a), Some(b)) => (a, b),
+		_ => return,
+	};
+	ctx.count("union_order_probes");
+	// express b's branch in a's numbering
+	let b_mapped = b.clone().map(|v| match v {
+		Val::Union(i, x) => Val::Union(perm[i], x),
+		other => other,
+	});
+	let same = match (&a, &b_mapped) {
+		(Err(_), Err(_)) => true,
+		(Ok(x), Ok(y)) => x == y,
+		_ => false,
+	};
+	if same {
+		if a.is_ok() {
+			ctx.count("union_order_probes_ok_selected");
+		}
+		return;
+	}
+	let class = match (&a, &b) {
+		(Ok(_), Ok(_)) => "different-branch",
+		_ => "ok-in-one-order-err-in-the-other",
+	};
+	ctx.violation(
+		format!("union-selection-depends-on-branch-order {class} call={}", call.kind()),
+		case_seed,
+		json!({"schema_a": rs.spell(None).compact(), "schema_b": rs2.spell(None).compact(), "call": call.short(), "outcome_a": format!("{a:?}").chars().take(300).collect::<String>(), "outcome_b": format!("{b:?}").chars().take(300).collect::<String>()}),
+	);
+}
 
 fn prim(k: Kind) -> Node {
 	Node { kind: k, logical: None }
@@ -87,7 +192,8 @@ pub fn node_schema(kind: &str, rng: &mut Rng) -> RSchema {
 			prim(Kind::Long),
 			prim(Kind::Null),
 		],
-		"union" => match rng.below(10) {
+		"union" => match rng.below(14) {
+			10..=13 => wide_union(rng),
 			0 => vec![prim(Kind::Union(vec![1, 2])), prim(Kind::Null), prim(Kind::Int)],
 			1 => vec![prim(Kind::Union(vec![1, 2])), prim(Kind::Int), prim(Kind::Long)],
 			2 => vec![prim(Kind::Union(vec![1, 2, 3])), prim(Kind::Null), prim(Kind::String), prim(Kind::Bytes)],
@@ -412,7 +518,15 @@ pub fn gen_call(rs: &RSchema, id: Id, kind: &str, rng: &mut Rng, depth: usize) -
 		"none" => Call::None,
 		"unit" => Call::Unit,
 		"unit_struct" => Call::UnitStruct(name_for(rs, id, rng)),
-		"unit_variant" => Call::UnitVariant("Enum".into(), rng.below(4) as u32, name_for(rs, id, rng)),
+		"unit_variant" => {
+			// the Rust enum's own name is "Enum", or the Avro name of the target (what a derived type usually has), with a
+			// variant index that is the Rust declaration order - unrelated to the schema's symbol order
+			let rust_enum = match rs.fullname(target) {
+				Some(f) if rng.coin() => split_fullname(f).1.to_owned(),
+				_ => "Enum".to_owned(),
+			};
+			Call::UnitVariant(rust_enum, rng.below(6) as u32, name_for(rs, id, rng))
+		}
 		"some" => Call::Some(Box::new(gen_call(rs, id, scalar_or_conforming(rs, id, rng), rng, depth + 1))),
 		"newtype_struct" => Call::NewtypeStruct(
 			name_for(rs, id, rng),
@@ -641,6 +755,9 @@ pub fn run_case(ctx: &mut Ctx, case_seed: u64) {
 	let call = gen_call(&rs, 0, ck, &mut rng, 0);
 	let allow_slow = rng.coin();
 	judge(ctx, case_seed, nk, &rs, &call, allow_slow, &mut rng);
+	if nk == "union" {
+		order_invariance(ctx, case_seed, &rs, &call, allow_slow, &mut rng);
+	}
 }
 
 pub fn judge(ctx: &mut Ctx, case_seed: u64, nk: &str, rs: &RSchema, call: &Call, allow_slow: bool, rng: &mut Rng) {
